@@ -26,10 +26,19 @@ def gen(rng, tier, n_quick=60, n_thorough=1500):
     for i in range(4 if tier == "quick" else 40):
         # a strut pinned at both ends that carries no load of its own: with -w it has its weight to carry like every other bar
         cases.append(core.case_from_struct(G.gen_bracket(rng), Weight=(i % 4 != 3), Solve=True, Assemble=True, Error="1e-6", ViaPre=(i % 2 == 1)))
+    # one bar cut into many unequal finite elements (past any small fixed size), loads of every kind along it
+    for (a, b, e) in ((14, 0, "1e-5"), (26, 0, "1e-4"), (8, 8, "1e-3")) if tier == "quick" else ((14, 0, "1e-5"), (26, 0, "1e-4"), (8, 8, "1e-3"), (30, 0, "1e-4"), (22, 8, "1e-3"), (18, 4, "1e-3")):
+        cases.append(core.case_from_struct(G.gen_many_positions(rng, a, b), Weight=False, Solve=True, Assemble=True, Error=e, ViaPre=(a == 26)))
+    # ... and the same heavily loaded bar preprocessed and solved many times over (the finite elements of a bar are loaded one after the other)
+    many = G.gen_many_positions(rng, 22, 8)
+    for k in range(16 if tier == "quick" else 60):
+        c = core.case_from_struct(many, Weight=False, Solve=True, Assemble=True, Error="1e-3")
+        c["NoStage"] = True
+        cases.append(c)
     for i in range(2 if tier == "quick" else 20):
         cases.append(core.case_from_struct(G.gen_pin_first_joint(rng), Weight=False, Solve=True, Assemble=True, Error="1e-7", ViaPre=False))
     for i in range(3 if tier == "quick" else 30):
-        cases.append(core.case_from_struct(G.gen_slider_joint(rng), Weight=False, Solve=True, Assemble=True, Error="1e-6", ViaPre=(i % 3 == 2)))
+        cases.append(core.case_from_struct(G.gen_slider_joint(rng, ["only_dy", "only_rz", "slide_x"][i % 3]), Weight=False, Solve=True, Assemble=True, Error="1e-6", ViaPre=(i % 3 == 2)))
     for i in range(n):
         s = G.gen_solvable(rng)
         if i % 7 == 3:
@@ -67,7 +76,7 @@ def solved(o):
 
 
 def stageF(c, o, rng):
-    if not solved(o) or len(o["U"]) > 400:
+    if not solved(o) or len(o["U"]) > 400 or c.get("NoStage"):
         return None
     return P.stageF_case(o)
 
